@@ -25,8 +25,10 @@ TAbort == Ev("abort") /\ Abort /\ Obs
 TWait == Ev("wait") /\ WaitPoll /\ Obs /\ res'.r = e.r
 TSeg == Ev("seg") /\ Segment(IF e.quota < 0 THEN Big ELSE e.quota, e.buf, e.pkts) /\ res'.takes = e.takes
         /\ Clip(cons'.cl) = e.cl /\ Clip(cons'.sq) = e.sq /\ Obs
+\* the driver skipped a generated call that does not apply to the state the real object is in (no balance held)
+TNoop == Ev("noop") /\ UNCHANGED vars
 TraceInit == l = 1 /\ Init
-TraceNext == TReset \/ TRcvd \/ TBalance \/ TSent \/ TGrant \/ TAbort \/ TWait \/ TSeg
+TraceNext == TReset \/ TRcvd \/ TBalance \/ TSent \/ TGrant \/ TAbort \/ TWait \/ TSeg \/ TNoop
 
 \* ---- per-path byte stream of a full-stack run
 PKeep == UNCHANGED <<credit, wbit, wreg, wakes, asleep, disc, cons, task, sp, res>>
